@@ -904,7 +904,9 @@ class Analyzer:
             return f'{bp}[*]'
         if k == 'un' and nd['op'] == '*':
             bp = self.rpath(nd['c'][0], env)
-            return None if bp is None else f'{bp}[*]' if False else f'*{bp}'
+            if bp is not None and bp.startswith('&'):
+                return bp[1:]           # *(&lv) is lv (a pointer local that holds the address of an element)
+            return None if bp is None else f'*{bp}'
         if k == 'cond':
             a, b = nd['c'][1], nd['c'][2]
             zb = self.ex[self.F.strip_casts(b)]
@@ -946,6 +948,14 @@ class Analyzer:
         nd = self.ex[self.F.strip_casts(e)]
         elem = False
         for _ in range(8):
+            # *p with p = &lv (single definition): the location is lv
+            if nd['k'] == 'un' and nd['op'] == '*':
+                pn = self.ex[self.F.strip_casts(nd['c'][0])]
+                if pn['k'] == 'ref' and pn['decl'].get('id') in getattr(self, 'alias', {}):
+                    dn = self.ex[self.F.strip_casts(self.alias[pn['decl']['id']])]
+                    if dn['k'] == 'un' and dn['op'] == '&':
+                        nd = self.ex[self.F.strip_casts(dn['c'][0])]
+                        continue
             while nd['k'] == 'sub':
                 elem = True
                 nd = self.ex[self.F.strip_casts(nd['c'][0])]
